@@ -16,7 +16,7 @@ constexpr auto uninitialized_fill(ForwardIt first, ForwardIt last, T const& valu
     auto current = first;
     try {
         for (; current != last; ++current) {
-            etl::construct_at(current, value);
+            etl::construct_at(etl::addressof(*current), value);
         }
     } catch (...) {
         using ValueType = typename etl::iterator_traits<ForwardIt>::value_type;
@@ -27,7 +27,7 @@ constexpr auto uninitialized_fill(ForwardIt first, ForwardIt last, T const& valu
     }
 #else
     for (auto current = first; current != last; ++current) {
-        etl::construct_at(current, value);
+        etl::construct_at(etl::addressof(*current), value);
     }
 #endif
 }
